@@ -253,7 +253,9 @@ func genStress(r *rand.Rand, i int, thorough bool) (hx.T, []string) {
 	// ... and the rounds of boundary work (timers already due, work produced from inside handlers)
 	// ... and the number of further actors spawned from the same props
 	// ... whether the event centre is in direct mode, and the teardown variant
-	cfg = append(cfg, 0, 0, 0, 0, 0, 0, 0, pick(1, 12), 0, 0, 0)
+	// ... and the rounds of timers cancelled in one service's queue while a second service arms its own
+	cfg = append(cfg, 0, 0, 0, 0, 0, 0, 0, pick(1, 12), 0, 0, 0, pick(1, 4))
+	tags = append(tags, "two-services")
 	if i%3 == 1 {
 		cfg[23] = 1
 		tags = append(tags, "direct-mode")
